@@ -50,12 +50,26 @@ def check_rows(case0, cfg, sh, problem, dd, samples, theta_ref, X, mll_impl, mll
     dunit = u.km / u.s if sh["unit"] == "km/s" else u.m / u.s
     # (1) reference epoch
     tr = samples.t_ref
-    if tr is None or abs(float(tr.tcb.mjd) - dd["t_ref"]) > 1e-9:
+    noref = sh["tref"] == "none" and no == 0
+    if noref:
+        # data built with t_ref=False: there is no reference epoch on either side (phases relative to BMJD 0). The rows must not
+        # carry an invented epoch; reconstructing a curve may be refused (twobody needs an epoch), but if a curve comes back it
+        # must be the sampler's.
+        if tr is not None:
+            part.violation(case0, "data have no reference epoch (t_ref=False) but the returned samples carry one", expected=None, observed=float(tr.tcb.mjd))
+            return
+    elif tr is None or abs(float(tr.tcb.mjd) - dd["t_ref"]) > 1e-9:
         part.violation(case0, "samples.t_ref is not the data's reference epoch", expected=dd["t_ref"], observed=None if tr is None else float(tr.tcb.mjd))
         return
     Mref = problem.M(theta_ref)  # (rows, N, L), relative to the data's t_ref
     a, A, Ainv = problem.posterior(theta_ref)
     lnprior = problem.ln_prior_linear(theta_ref, X)
+    # orbit objects of ALL rows taken first and held while the others are requested (as `list(samples.orbits)` does): each one
+    # must keep denoting its own row
+    try:
+        held = [samples.get_orbit(i) for i in range(len(theta_ref))]
+    except Exception:
+        held = None
     for i in range(len(theta_ref)):
         case = dict(case0, theta=theta_ref[i].tolist(), x=X[i].tolist())
         part.evals += 1
@@ -63,9 +77,20 @@ def check_rows(case0, cfg, sh, problem, dd, samples, theta_ref, X, mll_impl, mll
         want_curve = Mref[i] @ x
         # (2) the reconstructed orbit is the sampler's model
         try:
+            # (the held object is evaluated while the most recently requested orbit is that of ANOTHER row)
+            rv_held = held[i].radial_velocity(tt).to_value(dunit) if held is not None else None
             orb = samples.get_orbit(i)
             rv = orb.radial_velocity(tt).to_value(dunit)
+            if held is not None:
+                if not np.array_equal(rv_held, rv):
+                    part.violation(case, "an orbit object obtained from get_orbit(i) changed when the orbits of other rows were requested afterwards",
+                                   expected=rv, observed=rv_held)
+                    return
         except Exception as e:
+            if noref and isinstance(e, (TypeError, ValueError)):
+                part.add("refused_without_reference_epoch")
+                part.outcomes.add(core.okey(("refused", type(e).__name__)))
+                continue
             part.violation(case, f"get_orbit / radial_velocity raised {type(e).__name__}: {e}")
             return
         off = np.zeros(len(dd["t"]))
@@ -153,7 +178,7 @@ def check_cell(cfg, sh, seed, part, prior, dec, scratch):
     import astropy.units as u
     import thejoker as tj
 
-    data, dd = pb.make_data(n=sh["n"], layout=sh["layout"], err=sh["err"], unit=sh["unit"], t_ref=(pb.T0 - 3.25) if sh["tref"] and cfg["n_offsets"] == 0 else None,
+    data, dd = pb.make_data(n=sh["n"], raw=sh.get("raw", "clean"), container=sh.get("container", "list"), layout=sh["layout"], err=sh["err"], unit=sh["unit"], t_ref=pb.shape_tref(sh, cfg["n_offsets"]),
                             seed=seed, n_surveys=cfg["n_offsets"] + 1, t_ref_scale=("utc" if sh["n"] % 2 else "tcb"), interleave=(not sh["tref"]))
     problem = pb.ref_problem(dd, dec)
     theta = theta_rows(seed, float(np.mean(dd["sig"])))
@@ -181,8 +206,19 @@ def check_cell(cfg, sh, seed, part, prior, dec, scratch):
     orc = LnLOracle(problem, th_ref)
     verd_all = orc.classify(mll_all)
     exact_all = orc.ref()[0]
-    # (i) rows returned by the sampler
-    if res is not None and len(res) > 0:
+    # (i) rows returned by the samplers: plain rejection sampling, and the iterative sampler (several iterations; in memory for
+    # one half of the cells, through the cache file for the other half)
+    results = [("returned", res)]
+    if res is not None and np.all(np.isfinite(mll_all)):  # (the iterative sampler refuses libraries with non-finite likelihoods: K6 / C14)
+        try:
+            inmem = (sh["n"] + cfg["poly_trend"]) % 2 == 0
+            res_it = joker.iterative_rejection_sample(data, lib, n_requested_samples=len(theta), init_batch_size=3, in_memory=inmem, return_logprobs=True)
+            results.append(("returned-iterative-" + ("inmem" if inmem else "file"), res_it))
+        except Exception as e:
+            part.violation(dict(case0, rows="returned-iterative"), f"iterative sampler raised on a valid input: {type(e).__name__}: {str(e)[:200]}")
+            return
+    for rows_name, res in results:
+      if res is not None and len(res) > 0:
         P = np.atleast_1d(res["P"].to_value(u.day))
         idx = [int(np.where(theta[:, 0] == p)[0][0]) if np.any(theta[:, 0] == p) else -1 for p in P]
         if any(j < 0 for j in idx):
@@ -192,9 +228,9 @@ def check_cell(cfg, sh, seed, part, prior, dec, scratch):
         if np.all(np.isfinite(X)):
             mll_rows = np.asarray(res["ln_likelihood"], dtype=float)
             if not np.array_equal(mll_rows, mll_all[idx]):
-                part.violation(case0, "ln_likelihood column of the returned rows != marginal_ln_likelihood of those rows", expected=mll_all[idx], observed=mll_rows)
+                part.violation(dict(case0, rows=rows_name), "ln_likelihood column of the returned rows != marginal_ln_likelihood of those rows", expected=mll_all[idx], observed=mll_rows)
                 return
-            check_rows(dict(case0, rows="returned"), cfg, sh, problem, dd, res, th_ref[idx], X, mll_rows, [verd_all[j] for j in idx], exact_all[idx], part)
+            check_rows(dict(case0, rows=rows_name), cfg, sh, problem, dd, res, th_ref[idx], X, mll_rows, [verd_all[j] for j in idx], exact_all[idx], part)
     # (ii) hand-built rows over a theta x x grid (K < 0, large trend terms)
     a, A, _ = problem.posterior(th_ref)
     sd = np.sqrt(np.abs(np.einsum("tii->ti", A)))
@@ -208,13 +244,15 @@ def check_cell(cfg, sh, seed, part, prior, dec, scratch):
             X[:, 1:] -= 1.1 * sdv[:, 1:]
         else:
             X = X + 3.0 * sdv * ((-1) ** np.arange(X.shape[1]))[None, :]
-        hb = tj.JokerSamples(t_ref=data.t_ref if not isinstance(data, list) else tj.data_helpers.validate_prepare_data(data, cfg["poly_trend"], cfg["n_offsets"])[0].t_ref,
+        hb = tj.JokerSamples(t_ref=data.t_ref if not isinstance(data, (list, dict)) else tj.data_helpers.validate_prepare_data(data, cfg["poly_trend"], cfg["n_offsets"])[0].t_ref,
                              poly_trend=cfg["poly_trend"], n_offsets=cfg["n_offsets"])
         for c, (nm, un) in enumerate(zip(["P", "e", "omega", "M0", "s"], [u.day, u.one, u.rad, u.rad, dunit])):
             hb[nm] = th_ref[:, c] * un
         for c, nm in enumerate(names):
             hb[nm] = X[:, c] * (dunit / u.day ** (int(nm[1:]) if nm.startswith("v") else 0))
         check_rows(dict(case0, rows=f"hand-built-{variant}"), cfg, sh, problem, dd, hb, th_ref, X, mll_all, verd_all, exact_all, part)
+        if sh["tref"] == "none" and cfg["n_offsets"] == 0:
+            continue  # no reference epoch: curves may be refused; the scans below need them
         if variant == 0 and cfg["n_offsets"] == 0:
             # a table in which consecutive rows share P exactly but differ in (e, omega, M0) - a phase / omega scan at fixed
             # period: every row's value must be what that row gives alone (whole-table call vs one-row tables)
